@@ -68,6 +68,8 @@ def _fallback_var(func, cfg, field, default_cls):
 def run(ctx):
     p = ctx.p
     typer = typer_for(ctx)
+    from .common import rule_word_membership
+    rule_word_membership(ctx, typer, [g for g in p.all_funcs if g.module.relpath in ("anytree/exporter/jsonexporter.py", "anytree/importer/jsonimporter.py", "anytree/exporter/dictexporter.py", "anytree/importer/dictimporter.py")], "J1")
     # ------------------------------------------------------------ exporter
     exp, wr, _exp = p.func("JsonExporter", "export"), p.func("JsonExporter", "write"), p.func("JsonExporter", "_export")
     sources = {}
